@@ -159,6 +159,14 @@ def correspondence(ctx):
         supplied = min(total, sum(chunks))
         pl = rng.choice([supplied, supplied + 1, supplied - 1, supplied // 2, 2 * supplied, -1])
         pl_lines.append("pledge %d %d %s %d %d" % (pl, total, ",".join(map(str, chunks)), mode, rng.choice([1, 2, 3]))); pl_info.append((pl, supplied, chunks, mode))
+    # and with the content-size field switched off: the pledge is a contract even when it is not written into the header
+    for _ in range(40 if ctx.quick() else 500):
+        total = rng.choice([1000, 70000, 200000])
+        chunks = [rng.choice([1, total // 2, total, 131072]) for _ in range(rng.randint(2, 4))]
+        mode = rng.randint(0, 2)
+        supplied = min(total, sum(chunks))
+        pl = rng.choice([supplied, supplied + 1, max(0, supplied - 1), 2 * supplied + 3])
+        pl_lines.append("pledge %d %d %s %d 0 1" % (pl, total, ",".join(map(str, chunks)), mode)); pl_info.append((pl, supplied, chunks, mode))
     cres = frames.run_lines(exe, pl_lines)[1]
     mres = frames.model_lines([" ".join(l.split()[:5]) for l in pl_lines])
     for ln, c, m, (pl, supplied, chunks, mode) in zip(pl_lines, cres, mres, pl_info):
